@@ -15,7 +15,7 @@ import inspect
 import types
 
 from .expr import Renderer
-from .execworld import parse_val, val_s, split_args
+from .execworld import parse_val, val_s, split_args, COPY_BASE
 from .impl import err_kind
 from modelx.core.errors import DeepReferenceError, NoneReturnedError
 
@@ -30,12 +30,18 @@ class PlainWorld:
         self.inputs = {}                                    # cid -> {key tuple: value}
         self.funcs = {}
         self.sigs = {}
-        self.spaces = [types.SimpleNamespace(), types.SimpleNamespace()]
+        # spaces: 0 = S, 1 = S.Ch, 3 = S.Cp (a copy of Ch, made by `copyspace`); index 2 is the model
+        self.spaces = [types.SimpleNamespace(), types.SimpleNamespace(), types.SimpleNamespace(), types.SimpleNamespace()]
         self.spaces[1].parent = self.spaces[0]
+        self.spaces[3].parent = self.spaces[0]
         self.spaces[0].Ch = self.spaces[1]
-        self.globals = [self._base_globals(0), self._base_globals(1)]
+        self.glob = set(cells[0].get("glob") or []) if cells else set()
+        self.mrefs = {}                                     # model-level references: id -> value
+        self.srefs = {}                                     # (space, id) -> value: references the space owns
+        self.enforce = dict(enforce_none or {})
+        self.globals = [self._base_globals(0), self._base_globals(1), None, self._base_globals(3)]
         self.cur = None
-        names = {"cell": self._cell_name, "rn": lambda r: "r%d" % r, "ra": self._attr_path}
+        names = {"cell": self._cell_name, "rn": lambda r: "r%d" % r, "ra": self._attr_path, "rg": self._glob_path}
         self.rend = Renderer(names, None, None)
         for r, v in refs.items():
             self.set_ref(r, v)
@@ -45,18 +51,67 @@ class PlainWorld:
 
     def _base_globals(self, k):
         g = {"DeepReferenceError": DeepReferenceError, "NoneReturnedError": NoneReturnedError,
-             "_space": self.spaces[k]}
+             "_space": self.spaces[k], "_model": self.spaces[2]}
         if k == 0:
             g["Ch"] = self.spaces[1]
         return g
 
     def ref_space(self, r):
+        if r in self.glob:
+            return 2
         return 0 if r < self.n_rn else 1
 
     def set_ref(self, r, v):
         k = self.ref_space(r)
-        self.globals[k]["r%d" % r] = v
-        setattr(self.spaces[k], "r%d" % r, v)
+        if k == 2:
+            self.mrefs[r] = v
+            setattr(self.spaces[2], "r%d" % r, v)
+        else:
+            self.srefs[(k, r)] = v
+        self._sync(r)
+
+    def set_space_ref(self, r, k, v):
+        """a reference named r<r> owned by space k (shadows a model-level reference of that name)"""
+        self.srefs[(k, r)] = v
+        self._sync(r)
+
+    def del_ref(self, r, k=None):
+        k = self.ref_space(r) if k is None else k
+        if k == 2:
+            self.mrefs.pop(r, None)
+            if hasattr(self.spaces[2], "r%d" % r):
+                delattr(self.spaces[2], "r%d" % r)
+        else:
+            self.srefs.pop((k, r), None)
+        self._sync(r)
+
+    def _sync(self, r):
+        """what the name r<r> denotes in each space: the space's own reference, else the model-level one, else nothing"""
+        nm = "r%d" % r
+        for k in (0, 1, 3):
+            if (k, r) in self.srefs:
+                v = self.srefs[(k, r)]
+            elif r in self.mrefs:
+                v = self.mrefs[r]
+            else:
+                self.globals[k].pop(nm, None)
+                if hasattr(self.spaces[k], nm):
+                    delattr(self.spaces[k], nm)
+                continue
+            self.globals[k][nm] = v
+            setattr(self.spaces[k], nm, v)
+
+    def _glob_path(self, r, form):
+        here = self.cell_space.get(self.rend.cid, 0)
+        if form == 0:
+            return "r%d" % r
+        if form == 1:
+            return "_space.r%d" % r
+        if form == 2:
+            return ("Ch.r%d" if here == 0 else "_space.parent.r%d") % r
+        if form == 3:
+            return "_model.r%d" % r
+        return ("_space.Ch.r%d" if here == 0 else "_space.parent.Ch.r%d") % r
 
     def _path_to(self, k):
         here = self.cell_space.get(self.rend.cid, 0)
@@ -69,19 +124,29 @@ class PlainWorld:
         return "c%d" % c if p is None else "%s.c%d" % (p, c)
 
     def _attr_path(self, r):
+        if r in self.glob:
+            return self._glob_path(r, 1)
         p = self._path_to(self.ref_space(r))
         return "%s.r%d" % ("_space" if p is None else p, r)
 
-    def define(self, c, enforce_none):
+    def define(self, c, enforce_none, copy_of=None, name=None):
+        """copy_of: the cells is a COPY of cells `copy_of`: the formula text is the one written for the source (names
+        spelled as seen from the source's space), evaluated in the namespace of the space the copy lives in; name: the
+        name the cells has in its space (default c<id>)"""
         cid, k = c["id"], int(c.get("space", 0))
-        src, _ = self.rend.render("c%d" % cid, cid, c["nparams"], c["body"], lam=bool(c.get("lam")),
+        rid = cid if copy_of is None else copy_of
+        src, _ = self.rend.render("c%d" % rid, rid, c["nparams"], c["body"], lam=bool(c.get("lam")),
                                   enforce_none=enforce_none, defaults=c.get("defaults") or ())
         g = self.globals[k]
         if src.startswith("lambda"):
             raw = eval(src.strip(), g)                              # noqa: S307 (source rendered by this harness)
         else:
+            keep = g.get("c%d" % rid)
             exec(src, g)                                    # noqa: S102
-            raw = g["c%d" % cid]
+            raw = g.pop("c%d" % rid)
+            if keep is not None:
+                g["c%d" % rid] = keep
+        name = name or "c%d" % cid
         sig = inspect.signature(raw)
         self.sigs[cid] = sig
         inputs = self.inputs.setdefault(cid, {})
@@ -95,9 +160,9 @@ class PlainWorld:
                     return inputs[key]
             return raw(*args, **kwargs)
         self.funcs[cid] = f
-        g["c%d" % cid] = f
-        g["zc%d" % cid] = f                                 # the name of a reference that holds the cells (call style "alias")
-        setattr(self.spaces[k], "c%d" % cid, f)
+        g[name] = f
+        g["z" + name] = f                                   # the name of a reference that holds the cells (call style "alias")
+        setattr(self.spaces[k], name, f)
 
     def bind(self, cid, toks):
         pos, kw = split_args(toks)
@@ -135,3 +200,49 @@ class PlainWorld:
         elif kind == "clearall" and applied:
             self.inputs[cid].clear()
         # clear(): inputs stay
+
+    def apply_op(self, op, applied):
+        """any operation of a history but `eval`: value edits, reference edits, formula edits, copies (only what the
+        live model accepted: `applied`)"""
+        kind = op[0]
+        if not applied:
+            return
+        if kind in ("set", "clearat", "clearall", "clear"):
+            self.apply_edit(op, applied)
+        elif kind == "setref":
+            self.set_ref(int(op[1]), parse_val(op[2]))
+        elif kind == "delref":
+            self.del_ref(int(op[1]))
+        elif kind == "shadow":
+            self.set_space_ref(int(op[1]), int(op[2]), parse_val(op[3]))
+        elif kind == "unshadow":
+            self.del_ref(int(op[1]), int(op[2]))
+        elif kind == "copycell":
+            src, k, dst = int(op[1]), int(op[2]), int(op[3])
+            old = next(x for x in self.cells_def if x["id"] == src)
+            # the formula text is the one rendered for the ORIGINAL cells of the chain of copies
+            origin = old.get("copy_of", src)
+            c = dict(old, id=dst, space=k, copy_of=origin)
+            c.pop("absent", None)
+            self.cells_def = [x for x in self.cells_def if x["id"] != dst] + [c]
+            self.cell_space[dst] = k
+            self.enforce[dst] = self.enforce.get(src, False)
+            self.inputs[dst] = dict(self.inputs.get(src, {}))       # the INPUT values go with the copy, nothing else
+            self.define(c, self.enforce[dst], copy_of=origin)
+        elif kind == "copyspace":
+            self.spaces[0].Cp = self.spaces[3]
+            for (k, r), v in list(self.srefs.items()):
+                if k == 1:
+                    self.srefs[(3, r)] = v
+            for r in {r for (k, r) in self.srefs} | set(self.mrefs):
+                self._sync(r)
+            for old in list(self.cells_def):
+                if self.cell_space.get(old["id"]) == 1 and old["id"] in self.funcs and old["id"] < COPY_BASE:
+                    origin = old.get("copy_of", old["id"])
+                    dst = COPY_BASE + old["id"]
+                    c = dict(old, id=dst, space=3, copy_of=origin)
+                    self.cells_def.append(c)
+                    self.cell_space[dst] = 3
+                    self.enforce[dst] = self.enforce.get(old["id"], False)
+                    self.inputs[dst] = dict(self.inputs.get(old["id"], {}))
+                    self.define(c, self.enforce[dst], copy_of=origin, name="c%d" % old["id"])
